@@ -58,17 +58,15 @@ func (r *Router) handleIncomingTraffic(w *mgr.WorkerCtx, f frame.Frame) error {
 	}
 
 	// Check integrity.
+	// Note: The frame is returned to the pool by the caller when returning an error.
 	switch {
 	case src != f.SrcIP():
-		f.ReturnToPool()
 		return errors.New("invalid packet: src IPs do not match")
 
 	case dst != f.DstIP():
-		f.ReturnToPool()
 		return errors.New("invalid packet: dst IPs do not match")
 
 	case m.InternalPrefix.Contains(f.DstIP()):
-		f.ReturnToPool()
 		return errors.New("invalid packet: dst IP is internal range")
 	}
 	// Check policy.
@@ -81,9 +79,14 @@ func (r *Router) handleIncomingTraffic(w *mgr.WorkerCtx, f frame.Frame) error {
 	}, len(packetData))
 	if status != connStatusAllowed {
 		// Packet may not be received.
+		// The frame is returned here, so no error may be returned to the caller.
 		f.ReturnToPool()
 		if err := r.ErrorPing.SendAccessDenied(src, dst, protocol, dstPort); err != nil {
-			return fmt.Errorf("send access denied ping: %w", err)
+			w.Debug(
+				"failed to send access denied ping",
+				"router", src,
+				"err", err,
+			)
 		}
 
 		return nil
